@@ -182,3 +182,15 @@ Example C10_dust_boundary :
   change_new (ex_tx 1 (1000 + 1130 + 1)) ex_quote ex_p2pkh = (FOk false, ex_tx 1 (1000 + 1130 + 1)) /\
   observe 1 (1000 + 1130 + 2) = (FOk true, 2%nat, 2, 1130, FOk (mkSize 226 226 0)).
 Proof. split; vm_compute; reflexivity. Qed.
+
+(** State inventory (tie, translator part): every Go struct the model of this property represents has, in the
+    source as it is NOW (gen/Structs.v, regenerated on every run), exactly the fields - names, types, order - the
+    model was written against (model/StateInventory.v).  New state in these objects (a memoised digest, a cached
+    document, a remembered operand) is state the theorems above do not speak about: this is the obligation that
+    stops checking then. *)
+From GoBT Require gen.Structs model.StateInventory.
+Theorem C10_state_inventory :
+  forall k, In k (StateInventory.group_of "C10") ->
+  exists f, StateInventory.lookup_gen gen.Structs.structs k = Some f /\ StateInventory.lookup_model k = Some f.
+Proof. apply StateInventory.inventory_ok_spec. vm_compute. reflexivity. Qed.
+Print Assumptions C10_state_inventory.
